@@ -169,6 +169,12 @@ def classify(g, ctx, bb, t):
         mname = method[4:] if try_ else method
         return Eff('xcall', ctx, bb, callee, at, client=sa.split('::')[-1], method=mname,
                    try_=try_, target=client_target(a[0]), args=a[1:], readonly=mname in READONLY_METHODS)
+    if t.get('ws_iter') and t.get('leaf') and not re.search(
+            r' as core::iter::(IntoIterator>::into_iter|Iterator>::(map|filter|filter_map|zip|chain|enumerate|skip|take|rev|peekable|by_ref|inspect|take_while|'
+            r'skip_while|map_while|scan|fuse|cloned|copied|step_by|flatten|flat_map|size_hint)\b)', callee):
+        # library code instantiated with a hand-written workspace iterator: it may call that iterator's `next()` any number of times and
+        # this analysis does not follow it there (adaptor constructors do not pull) - opaque effect, fail closed
+        return Eff('sdk', ctx, bb, callee, at, name='library call driving a workspace iterator', args=A())
     if callee.startswith('INDIRECT ') or callee.startswith('UNRESOLVED '):
         # a call through a function pointer / trait object whose target is not known in this calling context (a known one is a
         # child context in the graph and never reaches here): anything may happen in it - opaque effect, fail closed
